@@ -140,6 +140,95 @@ impl VisitMut for RecMut {
     }
 }
 
+// ---------------------------------------------------------------- a visitor that rebuilds the data
+//
+// Only the leaf and container callbacks are overridden; the order in which they arrive is the
+// default traversal's. The tree it builds is compared with the reference decoder's tree of the
+// source text, key order included: that is "in document order" measured against the text.
+
+enum Frame {
+    Table(Vec<(String, RVal)>, Option<String>),
+    Array(Vec<RVal>),
+}
+
+#[derive(Default)]
+struct Build {
+    stack: Vec<Frame>,
+    result: Option<RVal>,
+    orphans: usize,
+}
+
+impl Build {
+    fn push_val(&mut self, v: RVal) {
+        match self.stack.last_mut() {
+            Some(Frame::Array(a)) => a.push(v),
+            Some(Frame::Table(t, pending)) => match pending.take() {
+                Some(k) => t.push((k, v)),
+                None => self.orphans += 1,
+            },
+            None => self.result = Some(v),
+        }
+    }
+    fn close_table(&mut self) {
+        if let Some(Frame::Table(t, _)) = self.stack.pop() {
+            self.push_val(RVal::table(t));
+        }
+    }
+    fn close_array(&mut self) {
+        if let Some(Frame::Array(a)) = self.stack.pop() {
+            self.push_val(RVal::Array(a));
+        }
+    }
+}
+
+impl<'doc> Visit<'doc> for Build {
+    fn visit_table(&mut self, node: &'doc Table) {
+        self.stack.push(Frame::Table(Vec::new(), None));
+        toml_edit::visit::visit_table(self, node);
+        self.close_table();
+    }
+    fn visit_inline_table(&mut self, node: &'doc InlineTable) {
+        self.stack.push(Frame::Table(Vec::new(), None));
+        toml_edit::visit::visit_inline_table(self, node);
+        self.close_table();
+    }
+    fn visit_table_like_kv(&mut self, key: &'doc str, node: &'doc Item) {
+        if let Some(Frame::Table(_, pending)) = self.stack.last_mut() {
+            *pending = Some(key.to_string());
+        }
+        toml_edit::visit::visit_table_like_kv(self, key, node);
+        if let Some(Frame::Table(_, pending)) = self.stack.last_mut() {
+            // a placeholder item yields no value
+            *pending = None;
+        }
+    }
+    fn visit_array(&mut self, node: &'doc Array) {
+        self.stack.push(Frame::Array(Vec::new()));
+        toml_edit::visit::visit_array(self, node);
+        self.close_array();
+    }
+    fn visit_array_of_tables(&mut self, node: &'doc ArrayOfTables) {
+        self.stack.push(Frame::Array(Vec::new()));
+        toml_edit::visit::visit_array_of_tables(self, node);
+        self.close_array();
+    }
+    fn visit_boolean(&mut self, node: &'doc Formatted<bool>) {
+        self.push_val(RVal::Bool(*node.value()));
+    }
+    fn visit_datetime(&mut self, node: &'doc Formatted<Datetime>) {
+        self.push_val(RVal::Dt(obs::dt_to_r(node.value())));
+    }
+    fn visit_float(&mut self, node: &'doc Formatted<f64>) {
+        self.push_val(RVal::Float(node.value().to_bits()));
+    }
+    fn visit_integer(&mut self, node: &'doc Formatted<i64>) {
+        self.push_val(RVal::Int(*node.value()));
+    }
+    fn visit_string(&mut self, node: &'doc Formatted<String>) {
+        self.push_val(RVal::Str(node.value().clone()));
+    }
+}
+
 // ---------------------------------------------------------------- the independent walk
 
 fn walk_value(v: &Value, out: &mut Vec<Ev>) {
@@ -293,7 +382,29 @@ fn first_diff(a: &[Ev], b: &[Ev]) -> String {
 }
 
 impl C20 {
-    fn judge(&mut self, ctx: &mut Ctx, mut doc: DocumentMut, rng: &mut Rng) {
+    fn judge(&mut self, ctx: &mut Ctx, mut doc: DocumentMut, rng: &mut Rng, source: Option<&str>) {
+        if let Some(text) = source {
+            // document order: the data the visitor meets, in the order it meets it, against R
+            let d = refmodel::decode::decode(text);
+            if d.verdict == refmodel::decode::Verdict::Valid && d.tree_nl.is_none() {
+                let built = guarded(|| {
+                    let mut b = Build::default();
+                    b.visit_document(&doc);
+                    (b.result, b.orphans)
+                });
+                match built {
+                    Err((loc, msg)) => ctx.violation(&format!("panic:{}", crate::short_loc(&loc)), format!("visiting panicked at {loc}: {msg}")),
+                    Ok((Some(tree), 0)) => {
+                        ctx.count("document-order-checks");
+                        if let Some(diff) = d.tree.as_ref().unwrap().diff(&tree, KeyOrder::ExactOrAlt) {
+                            let sig = if diff.contains("key order") { "visit-order-differs-from-document" } else { "visited-data-differs-from-document" };
+                            ctx.violation(sig, format!("the data met by the read-only visitor, in the order it is met, against the source text: {diff}"));
+                        }
+                    }
+                    Ok((t, orphans)) => ctx.violation("visit-callbacks-out-of-structure", format!("a value callback arrived outside any key/value pair ({orphans} times) or no table was visited (root seen: {})", t.is_some())),
+                }
+            }
+        }
         let r = guarded(|| {
             let expected = walk_document(&doc);
             let mut rec = Rec::default();
@@ -392,7 +503,7 @@ impl Check for C20 {
         "C20"
     }
     fn workloads(&mut self, tier: Tier, _seed: u64) -> Vec<(String, u64)> {
-        let k = if tier == Tier::Quick { 1 } else { 20 };
+        let k = if tier == Tier::Quick { 10 } else { 80 };
         vec![("corpus".into(), docs::corpus().len() as u64), ("render".into(), 60_000 * k), ("built".into(), 40_000 * k)]
     }
     fn run(&mut self, ctx: &mut Ctx, workload: &str, index: u64, rng: &mut Rng) {
@@ -439,6 +550,10 @@ impl Check for C20 {
                 return;
             }
         };
-        self.judge(ctx, doc, rng);
+        let source: Option<String> = match workload {
+            "corpus" | "render" => ctx.cur_input.clone(),
+            _ => None,
+        };
+        self.judge(ctx, doc, rng, source.as_deref());
     }
 }
